@@ -50,7 +50,7 @@ _files = {}
 def field_names(sizes, variant):
     """variant bit 2: every field of a given width carries the same name (reserved / pad fields repeat in real tables)"""
     if variant & 8:
-        return [('hl i2c bus-%d events (w=%d).' % (i, s), s) for i, s in enumerate(sizes)]
+        return [('hl i2c bus-%d events (w=%d) over 85\u00b0C \u2211.' % (i, s), s) for i, s in enumerate(sizes)]   # punctuation, non-ASCII
     if variant & 4:
         return [('hl_reserved_w%d' % s, s) for s in sizes]
     return [('field_%d_w%d' % (i, s), s) for i, s in enumerate(sizes)]
